@@ -4,7 +4,9 @@ observation of probes.
 
 argv[1]: JSON config {"careful": bool}
 stdin  : JSON list of histories; a history is a list of operations
-           ["new", o, kind, target, selfcycle]   kind: P S W A T V E H
+           ["new", o, kind, target, selfcycle, rl]   kind: P S W A T V E H;  rl (kind W): the wrapper on which this
+                                                  wrapper's destructor calls ffi.release() when it runs during a
+                                                  release / drop operation (0: none; may be o itself)
            ["alias", o] ["dropalias", o] ["drop", o] ["cycle", o]
            ["release", o, via, how]               via: name|alias   how: release|with
            ["gcnone", o] ["collect"]
@@ -33,6 +35,9 @@ def main():
     gc.disable()
     out = sys.stdout
     RAN = []
+    NREL = []                  # wrappers released from inside destructors during the current operation
+    CUROP = [""]
+    DEPTH = [0]
     RAWENT = {}                # address of the raw memory -> entity
     CUR = [0]
     RAWREF = {}
@@ -53,6 +58,18 @@ def main():
     def run_history(hi, ops):
         NAMES, ALIAS, WR, OWNER, XREF, PAT = {}, {}, {}, {}, {}, {}
         KIND = {}
+
+        def nested(rl):
+            """body of a destructor: ffi.release() on the wrapper rl the program holds by name (re-entrancy);
+            only during release / drop operations, nesting capped (broken code would recurse for ever)"""
+            if (rl and CUROP[0] in ("release", "drop") and DEPTH[0] < 2 and rl in NAMES
+                    and KIND.get(rl) == "W"):
+                DEPTH[0] += 1
+                NREL.append(rl)
+                try:
+                    ffi.release(NAMES[rl])
+                finally:
+                    DEPTH[0] -= 1
         events = []
         gc.collect()
         del RAN[:]
@@ -67,12 +84,16 @@ def main():
             if kind == "probelock" and WR[o]() is None:
                 continue                    # a dead exporter cannot be probed
             e = {"op": kind, "o": o, "k": "", "t": 0, "via": "", "sc": False, "ran": [], "exc": "", "obs": False,
-                 "addr": 0}
+                 "addr": 0, "nrel": [], "rl": 0}
             del RAN[:]
+            del NREL[:]
+            CUROP[0] = kind
+            DEPTH[0] = 0
             try:
                 if kind == "new":
                     k, t, sc = op[2], op[3], bool(op[4])
-                    e["k"], e["t"], e["sc"] = k, t, sc
+                    rl = op[5] if len(op) > 5 and k == "W" else 0
+                    e["k"], e["t"], e["sc"], e["rl"] = k, t, sc, rl
                     KIND[o] = k
                     if k == "P":
                         NAMES[o] = ffi.new("int[2]")
@@ -103,15 +124,17 @@ def main():
                         if sc:
                             cell = []
 
-                            def d(x, o=o, cell=cell):
+                            def d(x, o=o, cell=cell, rl=rl):
                                 RAN.append(o)
+                                nested(rl)
                             w = ffi.gc(NAMES[t], d)
                             cell.append(w)
                             NAMES[o] = w
                             del w, d, cell
                         else:
-                            def d(x, o=o):
+                            def d(x, o=o, rl=rl):
                                 RAN.append(o)
+                                nested(rl)
                             NAMES[o] = ffi.gc(NAMES[t], d)
                             del d
                     elif k == "H":
@@ -183,6 +206,7 @@ def main():
             except Exception as ex:
                 e["exc"] = type(ex).__name__
             e["ran"] = list(RAN)
+            e["nrel"] = list(NREL)
             events.append(e)
             if careful:
                 out.write(json.dumps({"h": hi, "event": e}) + "\n")
